@@ -17,7 +17,6 @@ package s3event
 import (
 	"context"
 	"encoding/json"
-	"encoding/xml"
 	"fmt"
 	"os"
 	"sync"
@@ -25,7 +24,6 @@ import (
 
 	"github.com/gofiber/fiber/v2"
 	"github.com/segmentio/kafka-go"
-	"github.com/versity/versitygw/s3response"
 )
 
 var sequencer = 0
@@ -82,15 +80,14 @@ func (ks *Kafka) SendEvent(ctx *fiber.Ctx, meta EventMeta) {
 	}
 
 	if meta.EventName == EventObjectRemovedDeleteObjects {
-		var dObj s3response.DeleteObjects
-
-		if err := xml.Unmarshal(ctx.Body(), &dObj); err != nil {
+		objs, err := deletedObjects(ctx, meta)
+		if err != nil {
 			fmt.Fprintf(os.Stderr, "failed to parse delete objects input payload: %v\n", err.Error())
 			return
 		}
 
 		// Events aren't send in correct order
-		for _, obj := range dObj.Objects {
+		for _, obj := range objs {
 			if obj.Key == nil {
 				// an entry without a key: nothing was deleted for it
 				continue
